@@ -74,7 +74,11 @@ CLAIMS = {
          "(w = None: dimensions cancel, f is the exact plain number) — dimension and scale in one statement; any resolved unit term has "
          "exactly the value of the term; the only possible error of unit*unit is UndefinedResultError and it occurs iff the directory has "
          "no unit for the normalised result term (with or without its numeric factor); quantity*quantity constructs once with a*b*f; number "
-         "operands scale the amount and keep unit/type; same-type division is the plain ratio. Correspondence: predefined catalogue "
+         "operands scale the amount and keep unit/type; same-type division is the plain ratio; the resolution of a unit term is a "
+         "function of what the term denotes (same rational factor and base exponents => same unit and factor, or both undefined); "
+         "COMPLETENESS: whenever the directory holds a unit whose normalised definition has factor 1 and the exponents the term denotes "
+         "(the reference unit of a declared type of that dimension), the operation is defined (non-vacuity: km/min in the catalogue). "
+         "Correspondence: predefined catalogue "
          "(thorough: all 113x113 ordered pairs x {*,/}) and user histories, all operand kinds. Partial: completeness for reference-less "
          "types whose declared unit carries a numeric factor (known finding D2) is not claimed.",
          "6 C02", NOTE),
